@@ -64,6 +64,27 @@ Definition np_mean (a : list Q) : res Q := if len0 a then Err EZeroDiv else Ok (
 Definition np_max (a : list Q) : res Q := match a with [] => Err EValue | x :: t => Ok (qmaxl x t) end.
 Definition np_min (a : list Q) : res Q := match a with [] => Err EValue | x :: t => Ok (qminl x t) end.
 
+(* reductions of a 2-d array along an axis: axis 0 reduces the columns, axis 1 the rows;
+   keepdims keeps the reduced axis with length 1 *)
+Definition np_red_num (r : red) (v : list Q) : res Q :=
+  match r with
+  | RSum => Ok (np_sum v) | RMean => np_mean v | RMax => np_max v | RMin => np_min v
+  | _ => Err EOther
+  end.
+Definition np_red_bool (r : red) (v : list Q) : bool := match r with RAll => np_all v | _ => np_any v end.
+Definition np_lines (m : list (list Q)) (axis : nat) : list (list Q) := match axis with O => columns 0 m | _ => m end.
+Definition keep_shape {A} (axis : nat) (v : list A) : list (list A) := match axis with O => [v] | _ => map (fun x => [x]) v end.
+Inductive dobj2 := D2V (v : list Q) | D2L (b : list bool) | D2A (m : list (list Q)) | D2B (m : list (list bool)).
+Definition np_red2 (r : red) (m : list (list Q)) (axis : nat) (keep : bool) : res dobj2 :=
+  match r with
+  | RAny | RAll => let v := map (np_red_bool r) (np_lines m axis) in
+                   Ok (if keep then D2B (keep_shape axis v) else D2L v)
+  | _ => match mapM (np_red_num r) (np_lines m axis) with
+         | Ok v => Ok (if keep then D2A (keep_shape axis v) else D2V v)
+         | Err e => Err e
+         end
+  end.
+
 (* ------------------------------------------------------------------ indexing (non-negative indices) *)
 Definition np_get1 {A} (a : list A) (i : nat) : res A :=
   match nth_error a i with Some x => Ok x | None => Err EIndex end.
@@ -116,6 +137,22 @@ Definition dres {A} (r : res A) (f : A -> doutcome) : doutcome := match r with O
 (* a 2-d array against a 1-d operand (a vector, a list, a scalar): NumPy aligns the trailing axis, i.e. row by row *)
 Definition np_arith2 (o : aop) (m : list (list Q)) (w : list Q) : res (list (list Q)) := mapM (fun r => np_arith o r w) m.
 Definition np_iarith2 (o : aop) (m : list (list Q)) (w : list Q) : res (list (list Q)) := mapM (fun r => np_iarith o r w) m.
+(* 2-d with 2-d: same number of rows, or one of them has a single row that is broadcast *)
+Definition np_bcast_rows {A B C} (f : A -> B -> res C) (da : A) (db : B) (m : list A) (m2 : list B) : res (list C) :=
+  if Nat.eqb (length m) (length m2) then map2M f m m2
+  else if Nat.eqb (length m) 1 then mapM (f (hd da m)) m2
+  else if Nat.eqb (length m2) 1 then mapM (fun r => f r (hd db m2)) m
+  else Err EValue.
+Definition np_arith22 (o : aop) (m m2 : list (list Q)) : res (list (list Q)) := np_bcast_rows (np_arith o) [] [] m m2.
+Definition np_iarith22 (o : aop) (m m2 : list (list Q)) : res (list (list Q)) :=
+  if Nat.eqb (length m) (length m2) then map2M (np_iarith o) m m2
+  else if Nat.eqb (length m2) 1 then mapM (fun r => np_iarith o r (hd [] m2)) m
+  else Err EValue.
+Definition darg2 (s : dstore) (a : arg) : option (list (list Q)) :=
+  match a with
+  | AObj j => match nth_error s j with Some (DA m _) => Some m | _ => None end
+  | _ => None
+  end.
 (* logical operand of the fragment: a logical vector of the store *)
 Definition dargb (s : dstore) (a : arg) : option bits :=
   match a with
@@ -144,6 +181,12 @@ Definition np_step (s : dstore) (o : xop) : dstore * doutcome :=
           match np_arith2 a m w with
           | Ok r => (s ++ [DA r false], DNew (DA r false))
           | Err e => (s, DErr e) end
+      | Some (DA m _), None =>
+          match darg2 s x with
+          | Some m2 => match np_arith22 a m m2 with
+                       | Ok r => (s ++ [DA r false], DNew (DA r false))
+                       | Err e => (s, DErr e) end
+          | None => skip end
       | Some (DL b), _ =>
           match lop_of_bop (BA a), dargb s x with
           | Some lo, Some w => match np_logic lo b w with
@@ -176,6 +219,13 @@ Definition np_step (s : dstore) (o : xop) : dstore * doutcome :=
           else match np_iarith2 a m w with
                | Ok r => (upd s i (DA r ro), DUpd (DA r ro))
                | Err e => (s, DErr e) end
+      | Some (DA m ro), None =>
+          match darg2 s x with
+          | Some m2 => if ro then (s, DErr EValue)
+                       else match np_iarith22 a m m2 with
+                            | Ok r => (upd s i (DA r ro), DUpd (DA r ro))
+                            | Err e => (s, DErr e) end
+          | None => skip end
       | Some (DL b), _ =>
           match lop_of_bop (BA a), dargb s x with
           | Some lo, Some w => match np_ilogic lo b w with
